@@ -254,3 +254,87 @@ pub fn reach<'m, 'a>(m: &'m DModule<'a>, extra: &ExtraRoots) -> Reach {
     }
     w.r
 }
+
+/// Entities that are referenced by anything at all (any function body - live code as walrus's IR has
+/// it -, any segment, global initialiser, export or start), reachable or not. An entity outside this
+/// set can be deleted through the edit API without leaving a dangling reference.
+pub fn referenced<'m, 'a>(m: &'m DModule<'a>) -> Keep {
+    use crate::norm::normalise_with;
+    let mut k = Keep {
+        funcs: vec![false; m.funcs.len()],
+        tables: vec![false; m.tables.len()],
+        memories: vec![false; m.memories.len()],
+        globals: vec![false; m.globals.len()],
+        elems: vec![false; m.elems.len()],
+        datas: vec![false; m.datas.len()],
+        types: vec![false; m.types.len()],
+    };
+    fn set(v: &mut Vec<bool>, i: u32) {
+        if let Some(s) = v.get_mut(i as usize) {
+            *s = true;
+        }
+    }
+    let cexpr = |k: &mut Keep, c: &DConst| match c {
+        DConst::GlobalGet(g) => set(&mut k.globals, *g),
+        DConst::RefFunc(f) => set(&mut k.funcs, *f),
+        _ => {}
+    };
+    for e in &m.exports {
+        match e.kind {
+            EKind::Func => set(&mut k.funcs, e.index),
+            EKind::Table => set(&mut k.tables, e.index),
+            EKind::Memory => set(&mut k.memories, e.index),
+            EKind::Global => set(&mut k.globals, e.index),
+        }
+    }
+    if let Some(s) = m.start {
+        set(&mut k.funcs, s);
+    }
+    for g in &m.globals {
+        if let Some(i) = &g.init {
+            cexpr(&mut k, i);
+        }
+    }
+    for e in &m.elems {
+        for it in &e.items {
+            cexpr(&mut k, it);
+        }
+        if let DElemMode::Active { table, offset } = &e.mode {
+            set(&mut k.tables, *table);
+            cexpr(&mut k, offset);
+        }
+    }
+    for d in &m.datas {
+        if let DDataMode::Active { mem, offset } = &d.mode {
+            set(&mut k.memories, *mem);
+            cexpr(&mut k, offset);
+        }
+    }
+    for f in &m.funcs {
+        set(&mut k.types, f.ty);
+        if let Some(b) = &f.body {
+            for o in normalise_with(&b.ops, false) {
+                if let NKind::Op(op) = &o.kind {
+                    for (fname, raw) in ops::fields_of(op).1 {
+                        match raw {
+                            Raw::U32(v) => match ops::field_ref_kind(fname) {
+                                Some(RefKind::Func) => set(&mut k.funcs, v),
+                                Some(RefKind::Global) => set(&mut k.globals, v),
+                                Some(RefKind::Table) => set(&mut k.tables, v),
+                                Some(RefKind::Memory) => set(&mut k.memories, v),
+                                Some(RefKind::Type) => set(&mut k.types, v),
+                                Some(RefKind::Data) => set(&mut k.datas, v),
+                                Some(RefKind::Elem) => set(&mut k.elems, v),
+                                _ => {}
+                            },
+                            Raw::MemArg { memory, .. } => set(&mut k.memories, memory),
+                            Raw::Block(BlockType::FuncType(t)) => set(&mut k.types, t),
+                            _ => {}
+                        }
+                    }
+                }
+            }
+        }
+    }
+    k
+}
